@@ -215,28 +215,64 @@ Proof.
   rewrite (aset_absent n _ _ E2). repeat split; try reflexivity; assumption.
 Qed.
 
-(* exact effect of an accepted thread(): at most the marker of one existing entry changes *)
+Definition reg_table (k : regtype) (r : registry) : list (name * entry) :=
+  match k with RFeature => features r | RCommand => commands r end.
+
+Lemma akeys_mark_aliases : forall i l, akeys (mark_aliases i l) = akeys l.
+Proof.
+  intros i l. unfold akeys, mark_aliases. rewrite map_map. apply map_ext. intros [k e]. cbn [fst snd].
+  destruct (is_function i e); reflexivity.
+Qed.
+
+Lemma aget_mark_aliases : forall i n l,
+    aget n (mark_aliases i l) =
+    option_map (fun e => if is_function i e then assign_thread_attr_e e else e) (aget n l).
+Proof.
+  intros i n l. induction l as [|[k e] t IH]; cbn [mark_aliases map aget fst snd option_map]; [reflexivity|].
+  destruct (is_function i e) eqn:F; cbn [aget]; destruct (name_eqb n k); cbn [option_map]; rewrite ?F;
+    try reflexivity; exact IH.
+Qed.
+
+Lemma reg_table_mark_function : forall t i r,
+    reg_table t (mark_function i r) = mark_aliases i (reg_table t r).
+Proof. intros [|] i r; reflexivity. Qed.
+
+Lemma mark_registered_keys : forall r t n e, aget n (reg_table t r) = Some e ->
+    akeys (features (mark_registered r t n e)) = akeys (features r) /\
+    akeys (commands (mark_registered r t n e)) = akeys (commands r) /\
+    feature_options (mark_registered r t n e) = feature_options r.
+Proof.
+  intros r t n e H. unfold mark_registered. destruct (e_inject e).
+  - destruct t; cbn [reg_table features commands feature_options] in *;
+      rewrite (akeys_aset_present _ _ _ _ H); auto.
+  - cbn [mark_function features commands feature_options]. rewrite !akeys_mark_aliases. auto.
+Qed.
+
+Lemma aget_mark_registered_self : forall r t n e, aget n (reg_table t r) = Some e ->
+    aget n (reg_table t (mark_registered r t n e)) = Some (assign_thread_attr_e e).
+Proof.
+  intros r t n e H. unfold mark_registered. destruct (e_inject e) eqn:I.
+  - destruct t; cbn [reg_table features commands]; apply aget_aset_eq.
+  - rewrite reg_table_mark_function, aget_mark_aliases, H. cbn [option_map].
+    unfold is_function. rewrite I, N.eqb_refl. reflexivity.
+Qed.
+
+(* exact effect of an accepted thread() *)
 Lemma thread_ok_exact : forall r f r' f',
     thread r f = (r', f', Ok) ->
-    f_async f = false /\ feature_options r' = feature_options r /\
+    f_async f = false /\
     match f_reg f with
-    | Some (RFeature, n) => exists e, aget n (features r) = Some e /\
-                                      features r' = aset n (assign_thread_attr_e e) (features r) /\
-                                      commands r' = commands r
-    | Some (RCommand, n) => exists e, aget n (commands r) = Some e /\
-                                      commands r' = aset n (assign_thread_attr_e e) (commands r) /\
-                                      features r' = features r
-    | None => r' = r /\ f' = assign_thread_attr_f f
+    | Some (t, n) => exists e, aget n (reg_table t r) = Some e /\ r' = mark_registered r t n e /\
+                               f' = (if is_function (f_id f) e then assign_thread_attr_f f else f)
+    | None => r' = mark_function (f_id f) r /\ f' = assign_thread_attr_f f
     end.
 Proof.
   intros r f r' f' H. unfold thread in H.
-  destruct (f_async f) eqn:E1; [discriminate|].
-  destruct (f_reg f) as [[[|] n]|].
-  - destruct (aget n (features r)) as [e|] eqn:E2; [|discriminate]. inversion H; subst.
-    cbn [features commands feature_options]. repeat split. exists e. repeat split.
-  - destruct (aget n (commands r)) as [e|] eqn:E2; [|discriminate]. inversion H; subst.
-    cbn [features commands feature_options]. repeat split. exists e. repeat split.
-  - inversion H; subst. repeat split.
+  destruct (f_async f) eqn:E1; [discriminate|]. split; [reflexivity|].
+  destruct (f_reg f) as [[t n]|].
+  - fold (reg_table t r) in H. destruct (aget n (reg_table t r)) as [e|] eqn:E2; [|discriminate].
+    inversion H; subst. exists e. auto.
+  - inversion H; subst. auto.
 Qed.
 
 Theorem reject_is_identity : forall r x r' f' e, step r x = (r', f', Error e) -> r' = r.
@@ -248,9 +284,8 @@ Proof.
   - unfold command in H. destruct (name_invalid n); [congruence|].
     destruct (amem n (commands r)); congruence.
   - unfold thread in H. destruct (f_async f); [congruence|].
-    destruct (f_reg f) as [[[|] n]|]; try congruence.
-    + destruct (aget n (features r)); congruence.
-    + destruct (aget n (commands r)); congruence.
+    destruct (f_reg f) as [[t n]|]; try congruence.
+    destruct (aget n _); congruence.
 Qed.
 
 Definition op_fn (x : op) : func :=
@@ -266,9 +301,8 @@ Proof.
   - unfold command in H. destruct (name_invalid n); [congruence|].
     destruct (amem n (commands r)); congruence.
   - unfold thread in H. destruct (f_async f); [congruence|].
-    destruct (f_reg f) as [[[|] n]|]; try congruence.
-    + destruct (aget n (features r)); congruence.
-    + destruct (aget n (commands r)); congruence.
+    destruct (f_reg f) as [[t n]|]; try congruence.
+    destruct (aget n _); congruence.
 Qed.
 
 Lemma step_result_cases : forall r x, exists r' f' res, step r x = (r', f', res).
@@ -304,13 +338,12 @@ Proof.
     split; [assumption|].
     intros m [H|H]; [apply W5; left; exact H|].
     apply in_app_or in H. destruct H as [H|[H|[]]]; [apply W5; right; exact H|subst; exact Hv].
-  - apply thread_ok_exact in S. destruct S as (_ & HO & HR).
-    destruct (f_reg f) as [[[|] n]|].
-    + destruct HR as (e & He & HF & HC). unfold wf.
-      rewrite HF, HC, HO, (akeys_aset_present _ _ _ _ He). repeat split; assumption.
-    + destruct HR as (e & He & HC & HF). unfold wf.
-      rewrite HF, HC, HO, (akeys_aset_present _ _ _ _ He). repeat split; assumption.
-    + destruct HR as [-> _]. unfold wf. repeat split; assumption.
+  - apply thread_ok_exact in S. destruct S as (_ & HR).
+    destruct (f_reg f) as [[t n]|].
+    + destruct HR as (e & He & -> & _). destruct (mark_registered_keys _ _ _ _ He) as (K1 & K2 & K3).
+      unfold wf. rewrite K1, K2, K3. repeat split; assumption.
+    + destruct HR as [-> _]. unfold wf. cbn [mark_function features commands feature_options].
+      rewrite !akeys_mark_aliases. repeat split; assumption.
 Qed.
 
 Theorem wf_run : forall xs r, wf r -> wf (run r xs).
@@ -391,32 +424,37 @@ Definition same_but_thread (a b : option entry) : Prop :=
 Lemma same_but_thread_refl : forall a, same_but_thread a a.
 Proof. intros [x|]; cbn; auto. Qed.
 
+Lemma same_but_thread_mark : forall i a,
+    same_but_thread a (option_map (fun e => if is_function i e then assign_thread_attr_e e else e) a).
+Proof. intros i [e|]; cbn; [|exact I]. destruct (is_function i e); cbn; auto. Qed.
+
+Lemma same_but_thread_aset : forall n e (l : list (name * entry)) m, aget n l = Some e ->
+    same_but_thread (aget m l) (aget m (aset n (assign_thread_attr_e e) l)).
+Proof.
+  intros n e l m He. destruct (name_eqb n m) eqn:E.
+  - apply name_eqb_eq in E. subst m. rewrite aget_aset_eq, He. cbn. auto.
+  - rewrite aget_aset_neq; [apply same_but_thread_refl|]. intro; subst. rewrite name_eqb_refl in E. discriminate.
+Qed.
+
+(* an accepted thread() adds and removes no name, touches no options, and can only SET markers:
+   that of the callable registered under the function's last registration name - which, when that
+   callable is the function object itself, is the marker of every registration of that object *)
 Theorem accept_thread_frame : forall r f r' f',
     step r (OpThread f) = (r', f', Ok) ->
     akeys (features r') = akeys (features r) /\ akeys (commands r') = akeys (commands r) /\
     feature_options r' = feature_options r /\
     (forall m, same_but_thread (aget m (features r)) (aget m (features r'))) /\
-    (forall m, same_but_thread (aget m (commands r)) (aget m (commands r'))) /\
-    (forall m, f_reg f <> Some (RFeature, m) -> aget m (features r') = aget m (features r)) /\
-    (forall m, f_reg f <> Some (RCommand, m) -> aget m (commands r') = aget m (commands r)).
+    (forall m, same_but_thread (aget m (commands r)) (aget m (commands r'))).
 Proof.
-  intros r f r' f' H. cbn [step] in H. apply thread_ok_exact in H. destruct H as (_ & HO & HR).
-  destruct (f_reg f) as [[[|] n]|].
-  - destruct HR as (e & He & HF & HC). rewrite HF, HC, (akeys_aset_present _ _ _ _ He).
-    repeat split; try assumption; try reflexivity.
-    + intro m. destruct (name_eqb n m) eqn:E.
-      * apply name_eqb_eq in E. subst m. rewrite aget_aset_eq, He. cbn. auto.
-      * rewrite aget_aset_neq; [apply same_but_thread_refl|]. intro; subst. rewrite name_eqb_refl in E. discriminate.
-    + intro m. apply same_but_thread_refl.
-    + intros m Hm. apply aget_aset_neq. congruence.
-  - destruct HR as (e & He & HC & HF). rewrite HF, HC, (akeys_aset_present _ _ _ _ He).
-    repeat split; try assumption; try reflexivity.
-    + intro m. apply same_but_thread_refl.
-    + intro m. destruct (name_eqb n m) eqn:E.
-      * apply name_eqb_eq in E. subst m. rewrite aget_aset_eq, He. cbn. auto.
-      * rewrite aget_aset_neq; [apply same_but_thread_refl|]. intro; subst. rewrite name_eqb_refl in E. discriminate.
-    + intros m Hm. apply aget_aset_neq. congruence.
-  - destruct HR as [-> _]. repeat split; try reflexivity; intros; apply same_but_thread_refl.
+  intros r f r' f' H. cbn [step] in H. apply thread_ok_exact in H. destruct H as (_ & HR).
+  destruct (f_reg f) as [[t n]|].
+  - destruct HR as (e & He & -> & _). destruct (mark_registered_keys _ _ _ _ He) as (K1 & K2 & K3).
+    repeat split; try assumption; intro m; unfold mark_registered; destruct (e_inject e);
+      try (cbn [mark_function features commands]; rewrite aget_mark_aliases; apply same_but_thread_mark);
+      destruct t; cbn [reg_table features commands] in *;
+      try apply same_but_thread_refl; apply same_but_thread_aset; exact He.
+  - destruct HR as [-> _]. cbn [mark_function features commands feature_options].
+    rewrite !akeys_mark_aliases. repeat split; intro m; rewrite aget_mark_aliases; apply same_but_thread_mark.
 Qed.
 
 (* ------------------------------------------------------------------ histories *)
@@ -641,6 +679,41 @@ Proof.
   apply (proj1 (Hg n e')).
 Qed.
 
+Lemma taken_table : forall r t n, taken n (table t (abs r)) = amem n (reg_table t r).
+Proof. intros r [|] n; [apply taken_abs_features|apply taken_abs_commands]. Qed.
+
+Lemma sfind_map : forall (g : name * entry -> sreg) n e l,
+    (forall p, g_name (g p) = fst p) -> aget n l = Some e ->
+    exists k, sfind n (map g l) = Some (g (k, e)) /\ k = n.
+Proof.
+  intros g n e l Hg. induction l as [|[k e'] t IH]; cbn [aget map]; intro H; [discriminate|].
+  unfold sfind. cbn [find]. rewrite Hg. cbn [fst].
+  destruct (name_eqb n k) eqn:E.
+  - inversion H; subst. apply name_eqb_eq in E. subst. exists k. auto.
+  - apply IH in H. exact H.
+Qed.
+
+Lemma sfind_table : forall r t n e, aget n (reg_table t r) = Some e ->
+    exists g, sfind n (table t (abs r)) = Some g /\ g_inject g = e_inject e /\ g_fid g = e_fid e.
+Proof.
+  intros r [|] n e H; cbn [reg_table table] in *; unfold abs; cbn [s_features s_commands].
+  - destruct (sfind_map (abs_feature r) n e (features r)) as (k & Hk & ->); [intros [? ?]; reflexivity|exact H|].
+    eexists. split; [exact Hk|]. split; reflexivity.
+  - destruct (sfind_map abs_command n e (commands r)) as (k & Hk & ->); [intros [? ?]; reflexivity|exact H|].
+    eexists. split; [exact Hk|]. split; reflexivity.
+Qed.
+
+Lemma abs_mark_function : forall i r,
+    abs (mark_function i r) =
+    mkss (mark_fn i (s_features (abs r))) (mark_fn i (s_commands (abs r))).
+Proof.
+  intros i r. unfold abs, mark_function, mark_aliases, mark_fn.
+  cbn [features commands feature_options s_features s_commands].
+  rewrite !map_map. f_equal; apply map_ext; intros [k e]; cbn [fst snd];
+    unfold is_function; destruct (negb (e_inject e) && (e_fid e =? i)) eqn:F; cbn [abs_feature abs_command g_inject g_fid];
+    rewrite ?F; reflexivity.
+Qed.
+
 Theorem step_refines : forall r x, wf r -> op_ok x = true ->
     abs (step_reg r x) = fst (spec_step (abs r) x) /\
     is_error (step_res r x) = snd (spec_step (abs r) x).
@@ -684,18 +757,19 @@ Proof.
     rewrite V1, V2, V3, V4. reflexivity.
   - (* thread *)
     unfold thread. destruct (f_async f) eqn:E1; cbn [orb fst snd is_error]; [split; reflexivity|].
-    destruct (f_reg f) as [[[|] n]|].
-    + rewrite taken_abs_features. unfold amem.
-      destruct (aget n (features r)) as [e|] eqn:E2; cbn [negb fst snd is_error]; [|split; reflexivity].
-      split; [|reflexivity]. unfold abs. cbn [s_features s_commands features commands feature_options].
-      f_equal. apply (mark_abs (abs_feature (mkreg (aset n (assign_thread_attr_e e) (features r)) (commands r) (feature_options r)))); try assumption.
-      intros k e'. split; reflexivity.
-    + rewrite taken_abs_commands. unfold amem.
-      destruct (aget n (commands r)) as [e|] eqn:E2; cbn [negb fst snd is_error]; [|split; reflexivity].
-      split; [|reflexivity]. unfold abs. cbn [s_features s_commands features commands feature_options].
-      f_equal. apply (mark_abs abs_command); try assumption.
-      intros k e'. split; reflexivity.
-    + cbn [fst snd is_error]. split; reflexivity.
+    destruct (f_reg f) as [[t n]|].
+    + fold (reg_table t r). rewrite taken_table. unfold amem.
+      destruct (aget n (reg_table t r)) as [e|] eqn:E2; cbn [negb fst snd is_error]; [|split; reflexivity].
+      destruct (sfind_table r t n e E2) as (g & Hg & G1 & G2). rewrite Hg, G1.
+      unfold mark_registered. destruct (e_inject e) eqn:I.
+      * split; [|destruct t; reflexivity].
+        destruct t; cbn [reg_table] in E2; cbn [fst]; unfold abs;
+          cbn [s_features s_commands features commands feature_options]; f_equal.
+        -- apply (mark_abs (abs_feature (mkreg (aset n (assign_thread_attr_e e) (features r)) (commands r) (feature_options r)))); try assumption.
+           intros k e'. split; reflexivity.
+        -- apply (mark_abs abs_command); try assumption. intros k e'. split; reflexivity.
+      * cbn [fst snd]. rewrite G2. split; [apply abs_mark_function|reflexivity].
+    + cbn [fst snd is_error]. split; [apply abs_mark_function|reflexivity].
 Qed.
 
 Definition view (p : registry * result) : sstate * bool := (abs (fst p), is_error (snd p)).
@@ -763,7 +837,7 @@ Proof.
     + assert (W1 : wf r1).
       { pose proof (wf_step r (OpThread (a_fn a)) W) as W'. unfold step_reg in W'. cbn [step] in W'.
         rewrite E in W'. exact W'. }
-      pose proof (thread_ok_exact _ _ _ _ E) as (Has & _ & HR). rewrite Hrg in HR. destruct HR as [_ Hf1].
+      pose proof (thread_ok_exact _ _ _ _ E) as (Has & HR). rewrite Hrg in HR. destruct HR as [_ Hf1].
       subst f1. cbn [spec_fn].
       destruct (register r1 a (assign_thread_attr_f (a_fn a))) as [[r2 f2] res2] eqn:E2.
       rewrite register_step in E2.
@@ -803,7 +877,8 @@ Theorem refused_iff_must_refuse : forall r x, wf r -> op_ok x = true ->
 Proof.
   intros r x W H. rewrite (proj2 (step_refines r x W H)). unfold spec_step.
   destruct (must_refuse (abs r) x); [reflexivity|].
-  destruct x as [n o f|n f|f]; try reflexivity. destruct (f_reg f) as [[[|] n]|]; reflexivity.
+  destruct x as [n o f|n f|f]; try reflexivity. destruct (f_reg f) as [[t n]|]; [|reflexivity].
+  destruct (sfind n (table t (abs r))) as [g|]; [|reflexivity]. destruct (g_inject g); reflexivity.
 Qed.
 
 (* ------------------------------------------------------------------ the unrepaired order of writes *)
@@ -835,9 +910,6 @@ Qed.
 (* ------------------------------------------------------------------ registration shapes (C14) *)
 Definition accepted (tr : list (registry * result)) : bool :=
   forallb (fun p => negb (is_error (snd p))) tr.
-
-Definition reg_table (k : regtype) (r : registry) : list (name * entry) :=
-  match k with RFeature => features r | RCommand => commands r end.
 
 Lemma wrap_async : forall f, e_async (wrap_with_server f) = f_async f.
 Proof.
@@ -905,21 +977,21 @@ Proof.
     destruct (register_ok_entry _ _ _ _ _ E) as [Hf1 He]. cbn zeta in Hf1, He.
     destruct (thread r1 f1) as [[r2 f2] res2] eqn:E2.
     cbn [accepted forallb snd is_error negb andb] in Hacc. destruct res2; [|discriminate].
-    apply thread_ok_exact in E2. destruct E2 as (Has & _ & HR). subst f1.
+    apply thread_ok_exact in E2. destruct E2 as (Has & HR). subst f1.
     cbn [assign_help_attrs f_reg f_async] in HR, Has.
+    destruct HR as (e & He' & -> & _). rewrite He in He'. inversion He'; subst e. clear He'.
     unfold last_reg. cbn [last fst].
     exists (assign_thread_attr_e (wrap_with_server (assign_help_attrs (a_fn a) (a_name a) (a_kind a)))).
-    split.
-    + destruct (a_kind a); cbn [reg_table] in *; destruct HR as (e & He' & HT & _);
-        rewrite He in He'; inversion He'; subst e; rewrite HT; apply aget_aset_eq.
-    + cbn [assign_thread_attr_e e_fid e_inject]. rewrite wrap_fid, wrap_inject.
-      cbn [assign_help_attrs f_id f_params]. repeat split; try reflexivity; try discriminate;
-        unfold exec_site; cbn [assign_thread_attr_e e_async e_thread]; rewrite wrap_async;
-        cbn [assign_help_attrs f_async]; rewrite Has; try reflexivity; discriminate.
+    split; [apply aget_mark_registered_self; exact He|].
+    cbn [assign_thread_attr_e e_fid e_inject]. rewrite wrap_fid, wrap_inject.
+    cbn [assign_help_attrs f_id f_params]. repeat split; try reflexivity; try discriminate;
+      unfold exec_site; cbn [assign_thread_attr_e e_async e_thread]; rewrite wrap_async;
+      cbn [assign_help_attrs f_async]; rewrite Has; try reflexivity; discriminate.
   - destruct (thread r (a_fn a)) as [[r1 f1] res1] eqn:E.
     destruct res1 as [|e1]; [|cbn in Hacc; discriminate].
-    apply thread_ok_exact in E. destruct E as (Has & _ & HR). rewrite Hrg in HR. destruct HR as [-> ->].
-    destruct (register r a (assign_thread_attr_f (a_fn a))) as [[r2 f2] res2] eqn:E2. rewrite register_step in E2.
+    apply thread_ok_exact in E. destruct E as (Has & HR). rewrite Hrg in HR. cbv beta iota in HR.
+    destruct HR as [Hr1 Hf1]. subst f1.
+    destruct (register r1 a (assign_thread_attr_f (a_fn a))) as [[r2 f2] res2] eqn:E2. rewrite register_step in E2.
     cbn [accepted forallb snd is_error negb andb] in Hacc. destruct res2; [|discriminate].
     destruct (register_ok_entry _ _ _ _ _ E2) as [_ He]. cbn zeta in He.
     unfold last_reg. cbn [last fst]. eexists. split; [exact He|].
@@ -1106,17 +1178,6 @@ Proof.
 Qed.
 
 (* ------------------------------------------------------------------ refinement, two-phase *)
-Lemma sfind_map : forall (g : name * entry -> sreg) n e l,
-    (forall p, g_name (g p) = fst p) -> aget n l = Some e ->
-    exists k, sfind n (map g l) = Some (g (k, e)) /\ k = n.
-Proof.
-  intros g n e l Hg. induction l as [|[k e'] t IH]; cbn [aget map]; intro H; [discriminate|].
-  unfold sfind. cbn [find]. rewrite Hg. cbn [fst].
-  destruct (name_eqb n k) eqn:E.
-  - inversion H; subst. apply name_eqb_eq in E. subst. exists k. auto.
-  - apply IH in H. exact H.
-Qed.
-
 Lemma step_fn_spec : forall r x r' f' res, step r x = (r', f', res) ->
     f' = if is_error res then op_fn x else spec_fn_w (abs r) x.
 Proof.
@@ -1124,17 +1185,11 @@ Proof.
   destruct x as [n o f|n f|f]; cbn [step spec_fn_w spec_fn] in *.
   - apply feature_ok_exact in S. tauto.
   - apply command_ok_exact in S. tauto.
-  - unfold thread in S. destruct (f_async f); [discriminate|].
-    destruct (f_reg f) as [[[|] n]|].
-    + destruct (aget n (features r)) as [e|] eqn:E; [|discriminate]. inversion S; subst.
-      unfold abs. cbn [s_features].
-      destruct (sfind_map (abs_feature r) n e (features r)) as (k & Hk & ->); [intros [? ?]; reflexivity|exact E|].
-      rewrite Hk. reflexivity.
-    + destruct (aget n (commands r)) as [e|] eqn:E; [|discriminate]. inversion S; subst.
-      unfold abs. cbn [s_commands].
-      destruct (sfind_map abs_command n e (commands r)) as (k & Hk & ->); [intros [? ?]; reflexivity|exact E|].
-      rewrite Hk. reflexivity.
-    + inversion S; subst. reflexivity.
+  - apply thread_ok_exact in S. destruct S as (_ & HR).
+    destruct (f_reg f) as [[t n]|].
+    + destruct HR as (e & He & _ & ->). destruct (sfind_table r t n e He) as (g & Hg & G1 & G2).
+      rewrite Hg, G1, G2. reflexivity.
+    + destruct HR as [_ ->]. reflexivity.
 Qed.
 
 Lemma step_func_ok : forall r x r' f' res,
@@ -1144,13 +1199,12 @@ Proof.
   - destruct x as [n o f|n f|f]; cbn [step op_fn] in *.
     + apply feature_ok_exact in S. destruct S as (_ & _ & _ & -> & _). exact H.
     + apply command_ok_exact in S. destruct S as (_ & _ & -> & _). exact H.
-    + unfold thread in S. destruct (f_async f) eqn:A; [discriminate|].
+    + apply thread_ok_exact in S. destruct S as (A & HR).
       assert (Hm : func_ok (assign_thread_attr_f f) = true).
       { unfold func_ok. cbn [assign_thread_attr_f f_async f_thread]. rewrite A. reflexivity. }
-      destruct (f_reg f) as [[[|] n]|].
-      * destruct (aget n (features r)) as [e|]; [|discriminate]. inversion S; subst. destruct (e_inject e); assumption.
-      * destruct (aget n (commands r)) as [e|]; [|discriminate]. inversion S; subst. destruct (e_inject e); assumption.
-      * inversion S; subst. exact Hm.
+      destruct (f_reg f) as [[t n]|].
+      * destruct HR as (e & _ & _ & ->). destruct (is_function (f_id f) e); assumption.
+      * destruct HR as [_ ->]. exact Hm.
   - rewrite (reject_keeps_function _ _ _ _ _ S). exact H.
 Qed.
 
@@ -1221,3 +1275,65 @@ Qed.
 
 Lemma world_ok_empty : world_ok empty_world.
 Proof. unfold world_ok, empty_world. cbn. split; [exact wf_empty|split; constructor]. Qed.
+
+(* ================================================================== function objects offered again *)
+(* a taken name is refused whatever function object (registered or not, the very one already
+   stored or another) and whatever options are offered; the call is the identity *)
+Theorem taken_feature_refused : forall r n o f,
+    name_invalid n = false -> amem n (features r) = true ->
+    step r (OpFeature n o f) = (r, f, Error EDuplicate).
+Proof. intros r n o f Hv Ht. cbn [step]. unfold feature. rewrite Hv, Ht. reflexivity. Qed.
+
+Theorem taken_command_refused : forall r n f,
+    name_invalid n = false -> amem n (commands r) = true ->
+    step r (OpCommand n f) = (r, f, Error EDuplicate).
+Proof. intros r n f Hv Ht. cbn [step]. unfold command. rewrite Hv, Ht. reflexivity. Qed.
+
+(* thread(): entries of OTHER function objects are untouched.  (Hypothesis: the callable stored
+   under the function's reg_name belongs to that function - true in every reachable state.) *)
+Theorem accept_thread_frame_other : forall r f r' f',
+    step r (OpThread f) = (r', f', Ok) ->
+    (forall t n e0, f_reg f = Some (t, n) -> aget n (reg_table t r) = Some e0 -> e_fid e0 = f_id f) ->
+    forall t m e, aget m (reg_table t r) = Some e -> e_fid e <> f_id f ->
+                  aget m (reg_table t r') = Some e.
+Proof.
+  intros r f r' f' H Hown t m e Hm Hne. cbn [step] in H. apply thread_ok_exact in H. destruct H as (_ & HR).
+  assert (Hnf : forall i, i = f_id f -> is_function i e = false).
+  { intros i ->. unfold is_function. destruct (e_fid e =? f_id f) eqn:E; [apply N.eqb_eq in E; contradiction|].
+    apply andb_false_r. }
+  destruct (f_reg f) as [[t0 n]|] eqn:R.
+  - destruct HR as (e0 & He0 & -> & _). pose proof (Hown _ _ _ eq_refl He0) as Hid.
+    unfold mark_registered. destruct (e_inject e0).
+    + destruct t0, t; cbn [reg_table features commands] in *; try exact Hm;
+        (rewrite aget_aset_neq; [exact Hm|]); intro; subst m; rewrite He0 in Hm; inversion Hm; subst; contradiction.
+    + rewrite reg_table_mark_function, aget_mark_aliases, Hm. cbn [option_map]. rewrite (Hnf _ Hid). reflexivity.
+  - destruct HR as [-> _]. rewrite reg_table_mark_function, aget_mark_aliases, Hm. cbn [option_map].
+    rewrite (Hnf _ eq_refl). reflexivity.
+Qed.
+
+(* ... and a wrapper object (server injected) that is not the one registered under reg_name keeps
+   its marker even when it wraps the same function: thread() above two stacked registrations of a
+   server-taking function reaches the LAST registration only *)
+Theorem accept_thread_frame_wrapper : forall r f r' f' t m e,
+    step r (OpThread f) = (r', f', Ok) ->
+    aget m (reg_table t r) = Some e -> e_inject e = true -> f_reg f <> Some (t, m) ->
+    aget m (reg_table t r') = Some e.
+Proof.
+  intros r f r' f' t m e H Hm Hi Hne. cbn [step] in H. apply thread_ok_exact in H. destruct H as (_ & HR).
+  assert (Hnf : forall i, is_function i e = false) by (intro i; unfold is_function; rewrite Hi; reflexivity).
+  destruct (f_reg f) as [[t0 n]|] eqn:R.
+  - destruct HR as (e0 & He0 & -> & _). unfold mark_registered. destruct (e_inject e0).
+    + destruct t0, t; cbn [reg_table features commands] in *; try exact Hm;
+        (rewrite aget_aset_neq; [exact Hm|]); intro; subst m; apply Hne; reflexivity.
+    + rewrite reg_table_mark_function, aget_mark_aliases, Hm. cbn [option_map]. rewrite Hnf. reflexivity.
+  - destruct HR as [-> _]. rewrite reg_table_mark_function, aget_mark_aliases, Hm. cbn [option_map].
+    rewrite Hnf. reflexivity.
+Qed.
+
+(* one function object under two names is one object: marking it marks both registrations *)
+Theorem mark_function_marks_every_alias : forall i r t m e,
+    aget m (reg_table t r) = Some e -> is_function i e = true ->
+    aget m (reg_table t (mark_function i r)) = Some (assign_thread_attr_e e).
+Proof.
+  intros i r t m e H F. rewrite reg_table_mark_function, aget_mark_aliases, H. cbn [option_map]. rewrite F. reflexivity.
+Qed.
